@@ -12,6 +12,8 @@ import numpy as np
 
 import romsfiles as rf
 
+import c04_scale
+
 PROP = "C04"
 THEOREM_FILE = "Props/C04.v"
 CHECKER = "Corr.C04"
@@ -27,7 +29,12 @@ RULE = ("Release tables written as text (header in the file or `names` argument,
         "every pid released so far must still carry its row's values (particle variables by pid, instance variables "
         "of the survivors); a small stream of "
         "unsorted / off-grid tables (outside the property's quantifier) ties the blind cursor of the model to the "
-        "code; thorough tier adds end-to-end runs (first appearance of every pid in the output file). "
+        "code; thorough tier adds end-to-end runs (first appearance of every pid in the output file); a fixed family "
+        "of SCALE cases (c04_scale.py, oracle only: one continuous release of 1040 ticks / 2080 steps stepped in full with "
+        "deaths, windows placed 960 ... 130000 release ticks after the first file time, 1500 and 4097 file times, 3000 "
+        "and 70000 rows per time, mult up to 130000, one whole model run starting 5000 ticks into a release; every step's "
+        "count and every particle's pid, row of origin, position, extra values and release time decided with numpy; "
+        "thorough tier steps releases of up to 10000 ticks in full). "
         "Non-trivial = distinct case with >= 2 distinct release times in the window, or some mult != 1, or rows "
         "outside the window.")
 TRUSTED = ["Coq 8.16.1 kernel + vm_compute", "hand-written model coq/Model/Release.v tied by this correspondence",
@@ -389,6 +396,8 @@ def encode(desc, obs):
 
 
 def eval_case(desc, ctx):
+    if desc.get("k") == "scale":
+        return c04_scale.eval_scale(desc, ctx)
     if desc.get("k") == "e2e":
         return eval_e2e(desc, ctx)
     obs = run_real(desc, ctx)
@@ -522,7 +531,9 @@ def gen_outside(rng):
 def gen_cases(ctx):
     rng = ctx.rng
     n = 260 if ctx.quick else 3000
-    out = [gen_one(rng) for _ in range(n)]
+    # the fixed scale family first (deterministic, does not draw from rng)
+    out = c04_scale.scale_cases(ctx.quick) + [c04_scale.e2e_case()]
+    out += [gen_one(rng) for _ in range(n)]
     out += [gen_outside(rng) for _ in range(n // 8)]
     out += [gen_e2e(rng, i) for i in range(6 if ctx.quick else 24)]
     return out
@@ -590,6 +601,10 @@ def eval_e2e(desc, ctx):
     if allp != list(range(len(allp))):
         obs["problems"].append(f"pids do not appear in order of release: {allp[:20]}")
     msg = oracle(desc, obs)
+    if desc.get("scale"):  # oracle only: the window starts thousands of release ticks after the first file time
+        return {"ints": None, "oracle": (f"scale case {desc['scale']}: {msg}" if msg else None),
+                "nontrivial": repr(("e2e-scale", desc["scale"], len(allp))), "kind": "scale-end-to-end-continuous",
+                "observed": {"first_appearance_per_record": [len(s) for s in steps]}}
     return {"ints": encode(desc, obs), "oracle": msg, "nontrivial": repr(("e2e", desc["idx"], desc["start"], len(allp))),
             "kind": "end-to-end-%s" % ("continuous" if desc["cont"] else "discrete"),
             "observed": {"first_appearance_per_record": [len(s) for s in steps]}}
